@@ -162,7 +162,7 @@ var auditFloors = []string{
 
 // runAudit runs the appended cases: numbers base.. in the order extra jobs, kept-value sequences,
 // lockstep groups. Counts are fixed per tier.
-func runAudit(c *core.Ctx, w *world, base int, fl map[string]bool) {
+func runAudit(c *core.Ctx, w *world, base int, fl map[string]bool) (next int) {
 	xs := extraJobs(c.Thorough())
 	nx := (len(xs) + chunk - 1) / chunk
 	for i := 0; i < nx; i++ {
@@ -197,4 +197,5 @@ func runAudit(c *core.Ctx, w *world, base int, fl map[string]bool) {
 		}
 		runConcCase(c, w, ci, c.Rand(ci), fl)
 	}
+	return base + nconc
 }
